@@ -10,6 +10,16 @@ pub mod native {
     thread_local! {
         pub static QUEUE: RefCell<VecDeque<u8>> = RefCell::new(VecDeque::new());
         pub static COVERS: RefCell<Vec<&'static str>> = RefCell::new(Vec::new());
+        /// fuzz mode: `any_usize` takes one small byte; everything handed out is
+        /// recorded in replay format.
+        pub static FUZZ: RefCell<bool> = RefCell::new(false);
+        pub static RECORD: RefCell<Vec<u8>> = RefCell::new(Vec::new());
+    }
+    pub fn fuzzing() -> bool {
+        FUZZ.with(|f| *f.borrow())
+    }
+    pub fn record(b: &[u8]) {
+        RECORD.with(|r| r.borrow_mut().extend_from_slice(b));
     }
     /// Marker payload used to tell "assumption not met" from a real failure.
     pub struct AssumeFailed;
@@ -21,6 +31,7 @@ pub mod native {
             q.extend(bytes.iter().copied());
         });
         COVERS.with(|c| c.borrow_mut().clear());
+        RECORD.with(|c| c.borrow_mut().clear());
     }
     pub fn pop(n: usize) -> Vec<u8> {
         QUEUE.with(|q| {
@@ -48,7 +59,9 @@ pub fn any_u8() -> u8 {
     }
     #[cfg(not(kani))]
     {
-        native::pop(1)[0]
+        let v = native::pop(1);
+        native::record(&v);
+        v[0]
     }
 }
 
@@ -60,7 +73,9 @@ pub fn any_bool() -> bool {
     }
     #[cfg(not(kani))]
     {
-        native::pop(1)[0] & 1 == 1
+        let v = native::pop(1);
+        native::record(&[v[0] & 1]);
+        v[0] & 1 == 1
     }
 }
 
@@ -72,7 +87,13 @@ pub fn any_usize() -> usize {
     }
     #[cfg(not(kani))]
     {
+        if native::fuzzing() {
+            let n = (native::pop(1)[0] % 20) as usize;
+            native::record(&n.to_le_bytes());
+            return n;
+        }
         let v = native::pop(8);
+        native::record(&v);
         usize::from_le_bytes([v[0], v[1], v[2], v[3], v[4], v[5], v[6], v[7]])
     }
 }
@@ -86,6 +107,7 @@ pub fn any_array<const N: usize>() -> [u8; N] {
     #[cfg(not(kani))]
     {
         let v = native::pop(N);
+        native::record(&v);
         let mut a = [0u8; N];
         a.copy_from_slice(&v);
         a
@@ -142,6 +164,35 @@ impl<const N: usize> Text<N> {
     pub fn bytes(&self) -> &[u8] {
         &self.buf[..self.len]
     }
+}
+
+/// Capacity of every owned buffer built by the harnesses (no reallocation may
+/// be needed inside the bounds: the growth stubs assert it).
+pub const CAP: usize = 40;
+
+/// An owned copy of `b` in a buffer of concrete capacity `CAP` (a `to_vec()`
+/// of symbolic length makes CBMC run out of memory).
+#[inline(always)]
+pub fn vec_of(b: &[u8]) -> Vec<u8> {
+    assert!(b.len() <= CAP);
+    let mut v: Vec<u8> = Vec::with_capacity(CAP);
+    unsafe {
+        let p = v.as_mut_ptr();
+        let mut i = 0;
+        while i < b.len() {
+            p.add(i).write(b[i]);
+            i += 1;
+        }
+        v.set_len(b.len());
+    }
+    v
+}
+
+/// `&str` view of bytes already known to be UTF-8 (the IRI table twins accept
+/// well-formed UTF-8 only).
+#[inline(always)]
+pub fn as_str(b: &[u8]) -> &str {
+    unsafe { std::str::from_utf8_unchecked(b) }
 }
 
 /// `s` is exactly the sub-slice `whole[start..end]` (same address, same length).
